@@ -148,6 +148,7 @@ def check(case, ctx):
                 ctx.fail(f'format/parse raised {type(e).__name__} (indent={indent}, compact={compact})', observed=str(e)[:300])
                 return
             ctx.transitions += 1
+            ctx.validated += 1     # tokens of every text are compared with the reference lexer below
             if t2.node != t:
                 ctx.fail(f'parse(format(t)) != t (indent={indent}, compact={compact})', expected=t, observed=t2.node,
                          repro=f'import penman; from penman.tree import Tree; s=penman.format(Tree({t!r}), indent={indent}, compact={compact}); print(s); print(penman.parse(s))')
